@@ -45,8 +45,24 @@ func (s *Stats) Merge(o *Stats) {
 	s.Violations += o.Violations
 }
 
-// CurrentAPI is read by the hang watchdog: the library call in progress (or "").
-var CurrentAPI atomic.Value
+// curAPI is read by the hang watchdog: id of the library call in progress (0 = none).
+// API names are interned so that a guarded call costs one map lookup and one atomic store.
+var (
+	curAPI   atomic.Int32
+	apiIDs   = map[string]int32{}
+	apiNames = []string{""}
+)
+
+// CurrentAPIName returns the name of the library call in progress (watchdog only).
+// It may race with interning by the run goroutine; it is called only when the run has
+// made no progress for a long time.
+func CurrentAPIName() string {
+	id := int(curAPI.Load())
+	if id > 0 && id < len(apiNames) {
+		return apiNames[id]
+	}
+	return ""
+}
 
 // Progress is bumped on every guarded call and every run; read by the watchdog.
 var Progress atomic.Uint64
@@ -134,9 +150,15 @@ func (c *Ctx) Fingerprint(parts ...uint64) {
 func (c *Ctx) Guard(api string, fn func()) (panicked bool) {
 	c.Stats.Calls++
 	Progress.Add(1)
-	CurrentAPI.Store(api)
+	id, ok := apiIDs[api]
+	if !ok {
+		id = int32(len(apiNames))
+		apiNames = append(apiNames, api)
+		apiIDs[api] = id
+	}
+	curAPI.Store(id)
 	defer func() {
-		CurrentAPI.Store("")
+		curAPI.Store(0)
 		if r := recover(); r != nil {
 			panicked = true
 			site := panicSite()
